@@ -50,7 +50,10 @@
        for an arbitrary environment (definitions of conserves / acct / owned /
        dropped: Proofs/Owned.v, quoted in Props/C02.v)
                                   C17_conserves_insert, C17_conserves_remove,
-                                  C17_conserves_retain, C17_conserves_NoDup
+                                  C17_conserves_retain, C17_conserves_NoDup,
+                                  C17_conserves_s_insert (Set),
+                                  C17_conserves_entry_of (entry API),
+                                  C17_set_sub_acct (set algebra with clones)
      "nothing outside the container is written": the insertion core never
        reaches UB (an unchecked out-of-range write is UB) whatever == answers
                                   C17_keeps_insert_ii
@@ -59,7 +62,12 @@
      - "may return wrong answers": nothing to prove; the Example
        C17_example_adversarial_run shows one (a duplicate key gets stored);
      - the conservation lemmas restated here are those for insert, remove,
-       retain (the others are in Props/C02.v: all are for arbitrary E);
+       retain, Set::insert, Map::entry and &Set - &Set (the others - every other
+       Map and Set method, the entry methods, IntoKeys/IntoValues, Clone - are in
+       Props/C02.v: all are for arbitrary E).  Key UNIQUENESS along histories
+       (ExecUniq, Props/C05.v) is for honest scripts only and deliberately not
+       claimed here: with a lying == duplicates can be stored
+       (C17_example_adversarial_run);
        exactly-once on a panic exit is "at most once" (a leak is tolerated);
      - the Borrow implementation itself is not a separate callback: a lying
        Borrow shows up as a lying eqKQ / eqQK answer;
@@ -68,8 +76,8 @@
        is safe without it.
    ========================================================================== *)
 Require Import Model.Base Model.Slots Model.MapOps Model.EntryOps Model.SetOps Model.Fmt Model.Exec.
-Require Import Proofs.Hoare Proofs.Inv Proofs.Safety Proofs.Safety2 Proofs.Owned Proofs.ExecSafe
-               Proofs.Legacy.
+Require Import Proofs.Hoare Proofs.Inv Proofs.Safety Proofs.Safety2 Proofs.Owned Proofs.Owned2
+               Proofs.ExecSafe Proofs.Legacy.
 
 (* -------------------------------------------------------------------------- *)
 (* histories under an arbitrary script                                        *)
@@ -171,6 +179,52 @@ Theorem C17_conserves_NoDup :
 Proof. exact (@conserves_NoDup). Qed.
 Print Assumptions C17_conserves_NoDup.
 
+(* the same for a Set method, the entry API and the Set subtraction
+   (Proofs/Owned2.v) - E arbitrary: == may lie, change its mind, panic.
+   ids_entry E e := the key a Vacant entry carries, [] for Occupied;
+   cloned_from E a k' := k' is what cloneK returned, in some callback state, for
+   a key stored in a *)
+Theorem C17_conserves_s_insert :
+  forall (K Q T : Type) (E : env K unit Q T) (debug : bool) (k : K),
+  conserves E (s_insert E debug k) (ids_pair E (k, tt))
+            (fun r : bool => if r then [] else idV E tt).
+Proof. exact (@conserves_s_insert). Qed.
+Print Assumptions C17_conserves_s_insert.
+
+Theorem C17_conserves_entry_of :
+  forall (K V Q T : Type) (E : env K V Q T) (k : K),
+  conserves E (entry_of E k) (idK E k) (ids_entry E).
+Proof. exact (@conserves_entry_of). Qed.
+Print Assumptions C17_conserves_entry_of.
+
+(* &Set - &Set compares every element of a against b and clones the survivors:
+   whatever the comparisons answer, every clone made is stored, handed nowhere
+   else, or (on a panic, possibly) leaked - never duplicated or destroyed twice *)
+Theorem C17_set_sub_acct :
+  forall (K Q T : Type) (E : env K unit Q T) (debug : bool),
+  idV E tt = [] ->
+  forall (a b : map K unit) (w : world K unit T),
+  WF a ->
+  WF b ->
+  WF (self w) ->
+  wp (set_sub E debug a b)
+    (fun (_ : unit) (w' : world K unit T) =>
+       WF (self w') /\
+       cap (self w') = cap (self w) /\
+       exists made : list K,
+         Forall (cloned_from E a) made /\
+         exists lost : list N,
+           acct E w w' (flat_map (fun k : K => ids_pair E (k, tt)) made) [] lost /\
+           (Tidy (self w) -> lost = [] /\ Tidy (self w')))
+    (fun w' : world K unit T =>
+       exists made : list K,
+         Forall (cloned_from E a) made /\
+         exists lost : list N,
+           acct E w w' (flat_map (fun k : K => ids_pair E (k, tt)) made) [] lost)
+    w.
+Proof. exact (@set_sub_acct). Qed.
+Print Assumptions C17_set_sub_acct.
+
 (* -------------------------------------------------------------------------- *)
 (* nothing written outside the array, arbitrary environment (Safety.keeps unfolded) *)
 Theorem C17_keeps_insert_ii :
@@ -219,3 +273,9 @@ Example C17_example_adversarial_run :
       1; 7777; 0; 0; 8888; 8889;  1; 7777; 0; 0; 8888; 8889;
       8890; 3; 0; 0; 100000]]%N.
 Proof. vm_compute. reflexivity. Qed.
+
+(* the hypothesis of C17_set_sub_acct ("() carries no identity") holds of the
+   interpreter's Set environment for EVERY script, adversarial ones included *)
+Example C17_example_unit_no_id :
+  idV (env_set {| sc_adv := true; sc_seed := 7; sc_fk := 0; sc_fa := 0 |}) tt = [].
+Proof. reflexivity. Qed.
